@@ -97,7 +97,7 @@ Qed.
 Definition pay_only (e : event) : bool :=
   match e with
   | AdoptCall _ _ _ _ | AdoptEnd _ _ | NewService _ _ _ | DropService _ | Step _ _ | Enter _ | Exit _
-  | Cancelled _ | CleanStep _ | CleanupDone _ | ExecCall _ _ _ _ _ | ExecEnd _ _ _ | Quiesce => true
+  | Cancelled _ | CleanStep _ | CleanupDone _ | ExecCall _ _ _ _ _ | ExecEnd _ _ _ | ExecAbort _ | Quiesce => true
   | _ => false
   end.
 
